@@ -144,6 +144,27 @@ pub fn run_c09(r: &mut Report) {
         }
         r.case("shape-matrix", json!({"documents": n}), "all verify and are unchanged", format!("{} failures", bad), bad == 0 && n > 100);
     }
+    // every single control character, DEL and the two escapes, on its own, through the crate's own writers and back
+    {
+        use in_toto::interchange::{DataInterchange, Json, JsonPretty};
+        let k = key(1);
+        let mut bad: Vec<String> = vec![];
+        let mut n = 0;
+        for c in (0u32..0x20).chain([0x22, 0x5c, 0x7f, 0x80, 0x2028]) {
+            let t = format!("c{}d", char::from_u32(c).unwrap());
+            let md = rich(&t, false).into_iter().next().unwrap().1;
+            let mb = Metablock::new(md, &[&k]).unwrap();
+            for pretty in [false, true] {
+                n += 1;
+                let mut w = vec![];
+                let wrote = if pretty { no_panic(|| JsonPretty::to_writer(&mut w, &mb)).map(|x| x.is_ok()) } else { no_panic(|| Json::to_writer(&mut w, &mb)).map(|x| x.is_ok()) };
+                let back = if pretty { JsonPretty::from_slice::<Metablock>(&w).map_err(|e| e.to_string()) } else { Json::from_slice::<Metablock>(&w).map_err(|e| e.to_string()) };
+                let ok = wrote == Ok(true) && matches!(&back, Ok(b) if b == &mb && matches!(no_panic(|| b.verify(1, [k.public()])), Ok(Ok(_))));
+                if !ok && bad.len() < 6 { bad.push(format!("U+{:04X} pretty={} wrote={:?} back={:?}", c, pretty, wrote, back.as_ref().map(|_| "parsed").map_err(|e| e.chars().take(80).collect::<String>()))); }
+            }
+        }
+        r.case("own-writers-every-control-character", json!({"documents": n}), "written, read back equal, verified", format!("{:?}", bad), bad.is_empty());
+    }
     // every string field kind x every text class x both ways to build a path x both constructors x both JSON layouts (one key type)
     {
         let k = key(1);
@@ -153,12 +174,22 @@ pub fn run_c09(r: &mut Report) {
                     for path in ["new", "builder"] {
                         let mb = if path == "new" { Metablock::new(md.clone(), &[&k]).unwrap() }
                                  else { MetablockBuilder::from_metadata(md.clone().into_trait()).sign(&[&k]).unwrap().build() };
-                        for pretty in [false, true] {
-                            let wire = if pretty { serde_json::to_string_pretty(&mb).unwrap() } else { serde_json::to_string(&mb).unwrap() };
-                            let back: Result<Metablock, _> = serde_json::from_str(&wire);
+                        // the four ways a block reaches the wire: serde_json compact / pretty, and the crate's own writers
+                        for layout in ["serde-compact", "serde-pretty", "Json::to_writer", "JsonPretty::to_writer"] {
+                            use in_toto::interchange::{DataInterchange, Json, JsonPretty};
+                            let wire: Result<Vec<u8>, String> = match layout {
+                                "serde-compact" => serde_json::to_vec(&mb).map_err(|e| e.to_string()),
+                                "serde-pretty" => serde_json::to_vec_pretty(&mb).map_err(|e| e.to_string()),
+                                "Json::to_writer" => { let mut w = vec![]; no_panic(|| Json::to_writer(&mut w, &mb)).and_then(|x| x.map_err(|e| e.to_string())).map(|_| w) }
+                                _ => { let mut w = vec![]; no_panic(|| JsonPretty::to_writer(&mut w, &mb)).and_then(|x| x.map_err(|e| e.to_string())).map(|_| w) }
+                            };
+                            let back: Result<Metablock, String> = wire.and_then(|w| match layout {
+                                "Json::to_writer" => Json::from_slice::<Metablock>(&w).map_err(|e| e.to_string()),
+                                "JsonPretty::to_writer" => JsonPretty::from_slice::<Metablock>(&w).map_err(|e| e.to_string()),
+                                _ => serde_json::from_slice::<Metablock>(&w).map_err(|e| e.to_string()) });
                             let ok = match &back { Ok(b) => matches!(no_panic(|| b.verify(1, [k.public()])), Ok(Ok(_))), Err(_) => false };
-                            if !ok || (path == "new" && !pretty) {
-                                r.case("sign-wire-verify-all-fields", json!({"metadata": kind, "text": t, "paths_via": if via_new { "VirtualTargetPath::new" } else { "From<&str>" }, "path": path, "pretty": pretty}),
+                            if !ok || (path == "new" && layout == "serde-compact") {
+                                r.case("sign-wire-verify-all-fields", json!({"metadata": kind, "text": t, "paths_via": if via_new { "VirtualTargetPath::new" } else { "From<&str>" }, "path": path, "layout": layout}),
                                        "verifies with threshold 1",
                                        format!("{:?}", back.as_ref().map(|b| b.verify(1, [k.public()]).map(|_| "ok").map_err(|e| e.to_string())).map_err(|e| e.to_string())), ok);
                             }
